@@ -179,6 +179,42 @@ def rule_kernel_template(ctx):
                         problems.append(
                             f"partitions `{src_of(c.args[0])}` = extent of {sorted(size_bases)}, but the block index `{ivar}` directly indexes only {sorted(direct)}: "
                             "rows beyond that extent are never computed (or read out of bounds) when the two differ")
+                    # block-carried index state: a local that indexes an array, is carried from one element of the block
+                    # loop to the next (augmented / self-referential assignment, or read before it is set in the body) and is
+                    # not re-derived at the head of every block is only right if a thread's blocks are contiguous -- they are
+                    # not whenever a thread owns more than one block (negative target_block_size)
+                    body = inner[0].body
+                    top_assigned_at = {}
+                    for k_, st_ in enumerate(body):
+                        if isinstance(st_, ast.Assign):
+                            for t_ in st_.targets:
+                                for y_ in ast.walk(t_):
+                                    if isinstance(y_, ast.Name) and isinstance(y_.ctx, ast.Store):
+                                        rhs_names = {z.id for z in ast.walk(st_.value) if isinstance(z, ast.Name)}
+                                        if y_.id not in rhs_names:
+                                            top_assigned_at.setdefault(y_.id, k_)
+                    carried = set()
+                    for k_, st_ in enumerate(body):
+                        for y_ in ast.walk(st_):
+                            if isinstance(y_, ast.AugAssign) and isinstance(y_.target, ast.Name):
+                                carried.add(y_.target.id)
+                            if isinstance(y_, ast.Assign):
+                                tn_ = {z.id for t_ in y_.targets for z in ast.walk(t_) if isinstance(z, ast.Name)}
+                                rn_ = {z.id for z in ast.walk(y_.value) if isinstance(z, ast.Name)}
+                                carried |= (tn_ & rn_)
+                    carried -= {v_ for v_ in carried if top_assigned_at.get(v_) == 0}
+                    loopvars = {ivar} | {z.id for x_ in ast.walk(inner[0]) if isinstance(x_, ast.For) for z in ast.walk(x_.target) if isinstance(z, ast.Name)}
+                    carried -= loopvars
+                    index_names = set()
+                    for x in ast.walk(inner[0]):
+                        if isinstance(x, ast.Subscript) and isinstance(x.value, ast.Name) and x.value.id in arrays:
+                            index_names |= {z.id for z in ast.walk(x.slice) if isinstance(z, ast.Name)}
+                    pre_inner = outer.body[1:outer.body.index(inner[0])]
+                    reinit = {z.id for st_ in pre_inner if isinstance(st_, ast.Assign) for t_ in st_.targets for z in ast.walk(t_) if isinstance(z, ast.Name)}
+                    for v_ in sorted((carried & index_names) - reinit):
+                        problems.append(
+                            f"index `{v_}` is carried from one element to the next inside the block loop and is not re-derived at the head of each block: "
+                            "a thread that owns several non-adjacent blocks continues from the wrong position")
                     # reductions must go to locals: any AugAssign to a bare parameter name is a shared write
                     for n in ast.walk(f.node):
                         if isinstance(n, ast.AugAssign) and isinstance(n.target, ast.Name) and n.target.id in arrays:
@@ -188,7 +224,7 @@ def rule_kernel_template(ctx):
         ksize[f.name] = (f, _norm(c.args[0], defs) if c.args else None, c.args[0] if c.args else None, defs)
         if problems:
             for p in problems:
-                r.bad(Finding("kernel-template", q, p, where=where, operand="partition-domain" if p.startswith("partitions `") else p[:40]))
+                r.bad(Finding("kernel-template", q, p, where=where, operand="partition-domain" if p.startswith("partitions `") else "block-carried-index" if p.startswith("index `") else p[:40]))
         else:
             r.ok(q, sample={"kernel": q, "size": src_of(c.args[0]), "loop": src_of(outer.iter)})
     # wrappers
